@@ -16,7 +16,8 @@ func buildState(ctx sdk.Context, k Keeper) {
 	if verifThorough() {
 		m = 2
 	}
-	buildStateShape(ctx, k, 0, m, m)
+	// at most one bridge here (two entries per collection in the thorough tier); two bridges are TwoBridges' shape
+	buildStateShape(ctx, k, 0, 1, m)
 }
 
 // buildStateShape: nbLo..nbHi bridges, at most m entries per per-bridge collection
